@@ -5,7 +5,7 @@ the declarative `Spec.Edit.edit`.
 import LolHtml.Spec.Edit
 
 namespace LolHtml.Lemmas.Edit
-open LolHtml LolHtml.Model LolHtml.Spec.Edit
+open LolHtml LolHtml.EditModel LolHtml.Spec.Edit
 
 /-- The closed form of a `MutationsInner` after a script, starting from `mu`. -/
 def innerAfter (mu : MutationsInner) (ops : List MutOp) : MutationsInner :=
@@ -128,7 +128,7 @@ theorem serialize_foldl_apply_some_empty (enc : Enc) (own : Bytes) (ops : List M
 end LolHtml.Lemmas.Edit
 
 namespace LolHtml.Lemmas.Edit
-open LolHtml LolHtml.Model LolHtml.Spec.Edit
+open LolHtml LolHtml.EditModel LolHtml.Spec.Edit
 
 /-! ### Per-kind decomposition: the content operations only touch `mutations`, the other
 operations only touch the token's own fields. -/
